@@ -820,9 +820,43 @@ func TestC04RxFrames(t *testing.T) {
 func TestC04RxFramesReplay(t *testing.T)  { evid.Replay(t, "TestC04RxFrames", execFrames) }
 func TestC04RxFramesRegress(t *testing.T) { evid.Regress(t, "C04", "TestC04RxFrames", execFrames) }
 
+// genFullBuffer: a stream that fills the 32-packet receive buffer in one read with k whole
+// blocks of s bytes (k*s close to the buffer size) followed by one block whose total size
+// is around / just above the maximum packet size and whose type or length field is
+// over-long. (Added after an independent reviewer found that readTlvStream spun for ever
+// when exactly 8800 unread bytes of an 8812-byte block remained at the end of the buffer.)
+func genFullBuffer(t *rapid.T) Case {
+	c := Case{Threads: 1}
+	s := rapid.SampledFrom([]int{8800, 8800, 8799, 4400, 2200, 8000}).Draw(t, "blockSize")
+	const bufSize = 8800 * 32
+	k := (bufSize-rapid.SampledFrom([]int{8800, 8800, 8799, 8801, 8812, 4400}).Draw(t, "tailRoom"))/s + rapid.IntRange(0, 1).Draw(t, "extra")
+	blk := tlvwalk.AppendVarNumSized(nil, 6, 1)
+	blk = tlvwalk.AppendVarNumSized(blk, uint64(s-4), 3)
+	blk = append(blk, make([]byte, s-4)...)
+	for i := 0; i < k; i++ {
+		c.Frames = append(c.Frames, blk)
+	}
+	tw := rapid.SampledFrom([]int{1, 3, 5, 9}).Draw(t, "typeWidth")
+	lw := rapid.SampledFrom([]int{3, 5, 9}).Draw(t, "lenWidth")
+	l := rapid.SampledFrom([]int{8800, 8800, 8799, 8796, 8790, 8801}).Draw(t, "lastLen")
+	last := tlvwalk.AppendVarNumSized(nil, 6, tw)
+	last = tlvwalk.AppendVarNumSized(last, uint64(l), lw)
+	last = append(last, make([]byte, l)...)
+	c.Frames = append(c.Frames, last, blk)
+	c.Chunks = []int{rapid.SampledFrom([]int{0, 0, -1, bufSize, 9000}).Draw(t, "chunk")}
+	return c
+}
+
+func genStreamCase(t *rapid.T) Case {
+	if rapid.IntRange(0, 9).Draw(t, "fullBuffer") == 0 {
+		return genFullBuffer(t)
+	}
+	return genCase(t)
+}
+
 func TestC04RxStream(t *testing.T) {
 	rec := evid.New("C04", "TestC04RxStream", ruleStream)
-	evid.Check(t, rec, genCase, execStream)
+	evid.Check(t, rec, genStreamCase, execStream)
 }
 func TestC04RxStreamReplay(t *testing.T)  { evid.Replay(t, "TestC04RxStream", execStream) }
 func TestC04RxStreamRegress(t *testing.T) { evid.Regress(t, "C04", "TestC04RxStream", execStream) }
